@@ -733,3 +733,22 @@ class JSArrayBuffer(JSObject):
 
     def __repr__(self) -> str:
         return f"ArrayBuffer({self.byteLength})"
+
+
+def native_result(result: Any) -> JSValue:
+    """What a native (host) function returned, as a JavaScript value: None is undefined,
+    Python lists and dicts become arrays and objects (deeply), the rest passes through."""
+    if result is None:
+        return UNDEFINED
+    if isinstance(result, list):
+        arr = JSArray()
+        arr._elements = [
+            NULL if item is None else native_result(item) for item in result
+        ]
+        return arr
+    if isinstance(result, dict):
+        obj = JSObject()
+        for key, item in result.items():
+            obj.set(str(key), NULL if item is None else native_result(item))
+        return obj
+    return result
